@@ -101,6 +101,52 @@ class Ctx:
         self._bins[key] = dst
         return dst
 
+    def build_asan(self):
+        """Harness built with AddressSanitizer on the nightly toolchain (extra observation channel
+        for the memory-safety clause of C04; thorough tier)."""
+        if "asan" in self._bins:
+            return self._bins["asan"]
+        env = dict(os.environ)
+        env["CARGO_NET_OFFLINE"] = "true"
+        env["RUSTFLAGS"] = "--cfg coap_lite_verif --check-cfg cfg(coap_lite_verif) -Zsanitizer=address"
+        t = time.time()
+        lock = open(os.path.join(HARNESS, ".build.lock"), "w")
+        fcntl.flock(lock, fcntl.LOCK_EX)
+        try:
+            r = subprocess.run(["cargo", "+nightly", "build", "--offline", "--quiet", "--target", "x86_64-unknown-linux-gnu",
+                                "--target-dir", "target/asan"], cwd=HARNESS, env=env, stdout=subprocess.PIPE,
+                               stderr=subprocess.STDOUT, text=True)
+            if r.returncode != 0:
+                self.note("asan-build-unavailable", detail=r.stdout[-200:].replace("\n", " "))
+                self._bins["asan"] = None
+                return None
+            dst = self.path("clv-asan")
+            shutil.copy2(os.path.join(HARNESS, "target", "asan", "x86_64-unknown-linux-gnu", "debug", "clv"), dst)
+        finally:
+            fcntl.flock(lock, fcntl.LOCK_UN)
+            lock.close()
+        self.note("build", profile="asan", s=round(time.time() - t, 1))
+        self._bins["asan"] = dst
+        return dst
+
+    def run_asan(self, binary, driver, prop):
+        """Run a recorder under ASan: a sanitizer abort is an outcome no specification action allows."""
+        out = self.path("asan-%s.ndjson" % driver)
+        r = subprocess.run([binary, "rec", driver, "--seed", str(self.seed), "--tier", self.tier, "--out", out],
+                           stdout=subprocess.PIPE, stderr=subprocess.PIPE, text=True,
+                           env=dict(os.environ, ASAN_OPTIONS="detect_leaks=0:abort_on_error=0"))
+        if "AddressSanitizer" in r.stderr or r.returncode not in (0,):
+            if "AddressSanitizer" in r.stderr:
+                self.violations.append({"prop": prop, "sig": "", "what": "AddressSanitizer report while serialising",
+                                        "kind": "asan", "component": driver, "case": r.stderr[:3000]})
+            else:
+                raise ToolError("ASan run of %s failed without a sanitizer report: %s" % (driver, r.stderr[-500:]))
+        self.note("asan " + driver, rc=r.returncode)
+        try:
+            os.remove(out)
+        except OSError:
+            pass
+
     # ---------------------------------------------------------------- harness
     def harness(self, binary, *args, timeout=1800):
         t = time.time()
